@@ -3,6 +3,7 @@ CONSTANTS N = 3
           OUTER = FALSE
           AFTER = FALSE
           PRE = FALSE
+          INCL = FALSE
 CHECK_DEADLOCK FALSE
 INVARIANT Emit
 INVARIANT CatchIdsUnique
